@@ -762,6 +762,59 @@ func k9() *sched.Scenario {
 		}}
 }
 
+// k13: a TCP allocation (RFC 6062) is closed by the application while ConnectionAttempt indications for it arrive.
+// Whatever the order: no panic, Close returns, the read loop lives on (a Binding transaction completes afterwards).
+func k13() *sched.Scenario {
+	return &sched.Scenario{Name: "K13-tcp-allocation-close-vs-connection-attempt", Bound: bound() - 1, FreeBound: 2, Opt: opt,
+		Body: func(*vsched.Sched) (func() []string, func()) {
+			w := newCWorld(100 * time.Millisecond)
+			var nt notes
+			peerA := vtx.PeerSpec["A"]
+			vsched.Go("server", w.autoServer)
+			vsched.Go("app", func() {
+				alloc, err := w.cl.AllocateTCP()
+				if err != nil {
+					nt.set("alloc", "failed:"+err.Error())
+
+					return
+				}
+				nt.set("alloc", "ok")
+				vsched.Mark()
+				vsched.Go("attempts", func() {
+					for i := uint32(1); i <= 1; i++ {
+						var tx [12]byte
+						copy(tx[:], fmt.Sprintf("attempt-%d", i))
+						w.reply(wire.New(wire.ConnectionAttempt, wire.Indication, tx).XorAddr(wire.AttrXORPeerAddress, peerA.IP, peerA.Port).U32(wire.AttrConnectionID, i).Bytes())
+					}
+					nt.set("attempts", "done")
+				})
+				_ = alloc.Close()
+				nt.set("closer", "done")
+				vsched.IdleSleep(time.Second)
+				if _, err := w.cl.SendBindingRequestTo(w.srvAddr); err == nil {
+					nt.set("binding", "ok")
+				} else {
+					nt.set("binding", "failed:"+errKind(err))
+				}
+			})
+
+			return func() []string {
+				if nt.get("alloc") != "ok" {
+					return []string{"c09:allocate-tcp-failed:" + nt.get("alloc")}
+				}
+				var out []string
+				if nt.get("closer") != "done" {
+					out = append(out, "c09:close-of-the-tcp-allocation-never-returned")
+				}
+				if nt.get("binding") != "ok" {
+					out = append(out, "c09:client-does-not-complete-a-transaction-after-close-vs-connection-attempt:"+nt.get("binding"))
+				}
+
+				return out
+			}, w.teardown
+		}}
+}
+
 // k10: two goroutines write to the same peer whose channel is already confirmed: both payloads go out
 // as ChannelData on that channel, each exactly once and byte-identical.
 func k10() *sched.Scenario {
@@ -902,4 +955,5 @@ func k11() *sched.Scenario {
 }
 
 func TestC13Sched(t *testing.T) { run(t, "C13", k2(), k3(), k5(), k8(), k10(), k11()) }
-func TestC18Client(t *testing.T) { run(t, "C18", k1(), k1b(), k2(), k3(), k5(), k6(), k7(), k8(), k9(), k10(), k12()) }
+func TestC18Client(t *testing.T) { run(t, "C18", k1(), k1b(), k2(), k3(), k5(), k6(), k7(), k8(), k9(), k10(), k12(), k13()) }
+func TestC09ClientSched(t *testing.T) { run(t, "C09", k13()) }
